@@ -425,6 +425,17 @@ def file_t2data(ctx, rng, v, i):
     dat.incon = {'  a 2': [None, list(inc_vals)]}
     dat.indom = {rname: list(dom_vals)}
     case['absent'] = {'incon': list(inc_vals), 'indom': list(dom_vals)}
+    # generator tables whose length fills the last record exactly (4 numbers to a record) or not: the records that follow
+    # a table are the next generator's
+    nt = [4, 3, 8, 1, 12, 5][(i // 2) % 6]
+    gens = []
+    for gi, (gname, n_) in enumerate((('tab 1', nt), ('end 2', 2))):
+        g_ = t2d.t2generator(name=gname, block='  a %d' % (gi + 1), type='MASS', gx=1.5 + gi, ltab=n_,
+                             time=[100.0 * k_ for k_ in range(n_)] if n_ > 1 else [], rate=[0.5 + k_ for k_ in range(n_)] if n_ > 1 else [],
+                             enthalpy=[1.0e5 + k_ for k_ in range(n_)] if (n_ > 1 and i % 2) else [], itab='1' if (n_ > 1 and i % 2) else '')
+        dat.add_generator(g_)
+        gens.append((gname, n_, list(g_.time), list(g_.rate), list(g_.enthalpy)))
+    case['generator_table_lengths'] = [g_[1] for g_ in gens]
     fn = os.path.join(ctx.tmp, 'c02_%d.dat' % i)
     # every third group of cases through the extra-precision auxiliary file (AUTOUGH2): its records are 105-115 columns
     # wide, the values beyond column 80 must come back like the others
@@ -487,6 +498,10 @@ def file_t2data(ctx, rng, v, i):
                 r.pop()
             return len(w) == len(r) and all((a is None and b is None) or (a is not None and b is not None and float('%20.13e' % a) == b)
                                             for a, b in zip(w, r))
+        ctx.count('generator_tables_read_back', len(gens))
+        gb = [(g_.name, g_.ltab, [float(x) for x in g_.time], [float(x) for x in g_.rate], [float(x) for x in g_.enthalpy]) for g_ in back.generatorlist]
+        if [x[0] for x in gb] != [x[0] for x in gens] or any(a[2:] != b[2:] for a, b in zip(gens, gb)):
+            ctx.violation('file:t2data-generator-tables-displaced', 'generators written %r, read back %r' % ([(x[0], x[1]) for x in gens], [(x[0], x[1], x[3][:2]) for x in gb]), case)
         ctx.count('records_with_absent_middle_value', 2)
         got = back.incon.get('  a 2')
         if got is None or not same_positions(inc_vals, got[1]):
